@@ -824,5 +824,9 @@ def run(ctx, crate):
     rule_reset_triggers(ctx, crate)
     rule_record_guard(ctx, crate)
     rule_sampled_every_update(ctx, crate)
+    # .. and every public way of changing the position reaches that path unless the steady ticker's thread does the ticking:
+    # tick()/inc()/dec()/set_position() through tick_inner, update() through its tick flag (inverted in seed C09l)
+    from .c08 import rule_manual_tick_gated
+    rule_manual_tick_gated(ctx, crate)
     rule_time_weighted(ctx, crate)
     Lg.run_ledger(ctx, crate, "C09", "R-EST-TOTAL", ENTRIES, floor_edges=1)
